@@ -597,7 +597,7 @@ macro_rules! c14s3 {
     ($name:ident, $cap:expr, $cfg:expr, $reference:expr, $nops:expr) => {
         verif_harness! {
             #[kani::stub(std::collections::HashSet::insert, s3stubs::hs_insert)]
-            #[kani::stub(std::collections::HashSet::remove, s3stubs::hs_remove)]
+            #[kani::stub(crate::eviction::s3fifo::GhostQueue::pop, crate::eviction::s3fifo::GhostQueue::verif_pop)]
             #[kani::stub(std::hash::RandomState::new, s3stubs::random_state_fixed)]
             #[kani::stub(crate::eviction::s3fifo::GhostQueue::contains, crate::eviction::s3fifo::GhostQueue::verif_contains)]
             $name, 6, {
@@ -620,7 +620,7 @@ c14s3!(c14_s3fifo_t2_5, 4, S3_B, ref_s3(2, 4, 2), 5);
 /// single weight fits), membership is exactly the most recent window.
 verif_harness! {
     #[kani::stub(std::collections::HashSet::insert, s3stubs::hs_insert)]
-    #[kani::stub(std::collections::HashSet::remove, s3stubs::hs_remove)]
+    #[kani::stub(crate::eviction::s3fifo::GhostQueue::pop, crate::eviction::s3fifo::GhostQueue::verif_pop)]
     #[kani::stub(std::hash::RandomState::new, s3stubs::random_state_fixed)]
     #[kani::stub(crate::eviction::s3fifo::GhostQueue::contains, crate::eviction::s3fifo::GhostQueue::verif_contains)]
     c14_s3fifo_ghost_window, 6, {
